@@ -5,10 +5,10 @@ import Drv.Common
 Line-protocol driver for C05 (state = the current class).
 
   cls <key>                     select a generated class table (`genClasses`)          → ok | unknown-class
-  syn hook=<b> cm=<b> inst=<I> mro=<T>|<T>|…   select a synthetic class given on the line → ok
+  syn inst=<I> mro=<T>|<T>|…    select a synthetic class given on the line              → ok
         I = `-` | name:<b>,name:<b>,…       T = `-` | name:<kind>,name:<kind>,…
         kind = f<m><d> | s<m><d> | c<m><d> | p | n | d | o<m> | k        (<m>,<d>,<b> ∈ {0,1})
-  q <name>                      → adv=<b> inv=<b> eff=<none|called|getter|hook> reply=<unknown|result|getter> decl=<b>
+  q <name>                      → adv=<b> inv=<b> eff=<none|called> reply=<unknown|result> decl=<b>
   ctor                          → ok <k> | exc:QMI_UsageException
   adv                           → advertised names, sorted by code points, space separated (`-` if none)
   wf                            → wf=1 | wf=0 bad=<names>
@@ -92,13 +92,11 @@ def stripPrefix (p s : String) : Option String :=
 
 def parseSyn (toks : List String) : Option RpcClass :=
   match toks with
-  | [h, c, i, m] => do
-    let h ← (stripPrefix "hook=" h) >>= parseBit
-    let c ← (stripPrefix "cm=" c) >>= parseBit
+  | [i, m] => do
     let i ← (stripPrefix "inst=" i) >>= parseEntries parseBit
     let m ← stripPrefix "mro=" m
     let ts ← (m.splitOn "|").mapM (parseEntries parseKind)
-    pure { mro := ts, inst := i, classMarked := c, getattrHook := h }
+    pure { mro := ts, inst := i }
   | _ => none
 
 def b2s (b : Bool) : String := if b then "1" else "0"
@@ -107,13 +105,10 @@ def query (C : RpcClass) (n : Name) : String :=
   let eff := match effects C n with
     | [] => "none"
     | [.called _] => "called"
-    | [.getterRan _] => "getter"
-    | [.hookRan _] => "hook"
     | _ => "multi"
   let rep := match reply C n with
     | .unknownRpc => "unknown"
     | .methodResult => "result"
-    | .getterDecides => "getter"
   s!"adv={b2s (decide (n ∈ advertised C))} inv={b2s (invokable C n)} eff={eff} reply={rep} decl={b2s (declared C n)}"
 
 def stepLine (cur : Option RpcClass) (line : String) : Option RpcClass × String :=
@@ -145,7 +140,7 @@ def stepLine (cur : Option RpcClass) (line : String) : Option RpcClass × String
     match cur with
     | some C =>
       if wfExceptB C [] then (cur, "wf=1")
-      else (cur, s!"wf=0 hook={b2s C.getattrHook} bad={showNames (badNames C)}")
+      else (cur, s!"wf=0 bad={showNames (badNames C)}")
     | none => (cur, "bad-op")
   | _ => (cur, "bad-op")
 
